@@ -140,6 +140,7 @@ def run_C15(ctx, R):
     _scoped(ctx, R, tab.tab11, C15_ENTRIES, 3)
     _scoped(ctx, R, out.out5, C15_ENTRIES | {'cJSONUtils_GeneratePatches'}, 3)
     _scoped(ctx, R, out.out7, C15_ENTRIES, 2)
+    _per_config(ctx, R, utilsx.dig1)
     _scoped(ctx, R, utilsx.tab18, C15_ENTRIES, 1)
     _scoped(ctx, R, bnd3.bnd3_pointer, C15_ENTRIES, 30)
     _scoped(ctx, R, utilsx.esc1, C15_ENTRIES, 1)
@@ -179,6 +180,8 @@ def run_C17(ctx, R):
     from .rules import cmpfold
     _per_config(ctx, R, lambda units, r: cmpfold.cmp1(units, r, unit_names=('cJSON_Utils.c',)))
     _scoped(ctx, R, out.out7, C17_ENTRIES, 3)
+    _per_config(ctx, R, utilsx.gen1)
+    _per_config(ctx, R, utilsx.dig1)
     _scoped(ctx, R, utilsx.esc1, C17_ENTRIES, 1)
     _per_config(ctx, R, tab.tab9)
     _scoped(ctx, R, out.out5, C17_ENTRIES, 3)
@@ -361,6 +364,8 @@ def run_C05(ctx, R):
     _per_config(ctx, R, _only_functions(tree.tab3, {'print_value'}, 'TAB3', 3))
     _per_config(ctx, R, outbuf.tab5bc)
     _per_config(ctx, R, outbuf.tab16)
+    from .rules import numcls
+    _per_config(ctx, R, numcls.num1)
     _per_config(ctx, R, outbuf.print_literals)
     from .rules import outsym
     _per_config(ctx, R, outsym.out23)
@@ -442,12 +447,14 @@ PROPERTIES = {
             "text minus that whitespace is the unformatted text as far as control structure goes. TAB3: print_value switches on "
             "the masked kind, covers all eight kinds and refuses anything else. TAB5b: every control byte goes to the switch "
             "whose default arm writes \\u00XX; quote and backslash are escaped. TAB16: print_number (and parse_number) "
-            "substitute the locale's decimal point. LIT: the literals written are exactly null, false, true with requests of "
+            "substitute the locale's decimal point. NUM1: print_number followed once for each class of IEEE doubles (NaN, +Infinity, "
+            "-Infinity, finite positive, finite negative, zero) with every condition on the value evaluated in a class/interval "
+            "domain (static helpers followed, isnan/isinf in every libc spelling, x - x, ordered comparisons with constants): the "
+            "three non-finite classes reach the null literal and no numeric conversion, the finite classes never reach null. LIT: the literals written are exactly null, false, true with requests of "
             "their length plus terminator. OUT2/OUT3: every token is written inside its request, the text handed back is "
             "zero-terminated at its end only (no terminator written by sprintf inside the escaping loop survives), and the offset "
             "bookkeeping matches what was written, so tokens are not overwritten or dropped.",
-        'not_decided': ['acceptance by an independent strict parser', 'non-finite numbers print as null (a value predicate)',
-                        'integer formatting (%d arm condition is numeric)'],
+        'not_decided': ['acceptance by an independent strict parser', 'integer formatting (%d arm condition is numeric)'],
     },
     'C09': {
         'run': run_C09, 'modules': ['print', 'parse'],
@@ -677,7 +684,9 @@ PROPERTIES = {
             "with the others and with RFC 6901 (~0<->~, ~1<->/, everything else verbatim, no other ~x). TAB11: the case_sensitive flag is passed unchanged to every callee that "
             "takes one and no case-folding function is reachable while it is true. OUT7: every block filled with a "
             "pointer string is sized, term by term (strlen / encoded length of the same key / 20 digits / literals / "
-            "terminator), for what sprintf/encode/strcat write. OUT5: the encoder's write cursor leaves no gap. "
+            "terminator; a size_t helper result counts as one non-negative term), for what sprintf/encode/strcat/memcpy and helpers "
+            "with a recognised counting loop write. DIG1: a loop that only divides x by K and counts must run while x >= K (or x != 0): "
+            "the digit count agrees with the radix (no instance today; armed by a fixture). OUT5: the encoder's write cursor leaves no gap. "
             "Decides these clauses, not the resolution semantics as a whole.",
         'not_decided': ['RFC 6901 resolution as a function of (document, pointer): which node is returned',
                         "the 'text not starting with / resolves to the root' defect named in the property (a missing "
@@ -709,7 +718,10 @@ PROPERTIES = {
             "CMP1: compare_strings over all 65536 byte pairs per flag value: exact mode is strcmp of the two arguments; folding mode continues exactly on fold-equal non-terminator pairs, returns 0 at a common terminator and otherwise a value with the sign of the folded difference (lower or upper fold, one of them throughout), because the sorter and the generator look at the sign. "
             "Path construction and input preservation clauses of patch generation. OUT7: each path buffer (compose_patch, "
             "create_patches array and object arms) is sized for what is written, with the encoded length taken of the "
-            "same key that is encoded and the key appended exactly where the text so far ends. ESC1: member names reach pointer "
+            "same key that is encoded and the key appended exactly where the text so far ends. GEN1: no branch of the recursive generator whose condition is computed from neither document (and "
+            "is not the NULL test of a fresh allocation) has an edge on which the generator can only leave without emitting while its "
+            "other edge can emit - a depth budget, flag or counter must not decide whether differences are reported (edges settled by "
+            "the range of an unsigned type are dead). ESC1: member names reach pointer "
             "text only through the encoder (not as a %s argument or a verbatim-copied helper parameter). TAB9/OUT5: escape tables "
             "and gap-free encoding. LST1+LST5: sort_object (run on both inputs) restores the tail link and sort_list "
             "stores only next/prev and calls only itself and the comparator, so inputs are merely re-linked. TAB11: "
